@@ -1,6 +1,6 @@
 (* C05 - Fast matching keeps inliers, rejects outliers and weak peaks, never raises. *)
 From Coq Require Import QArith Qabs Qminmax List ZArith.
-From BF Require Import Model.Lattice Model.WLS Model.Match Proofs.LatticeP Proofs.MatchP Proofs.MatchExactP Proofs.WeakP.
+From BF Require Import Model.Lattice Model.WLS Model.Match Proofs.LatticeP Proofs.MatchP Proofs.MatchExactP Proofs.WeakP Proofs.RotP.
 Open Scope Q_scope.
 
 (* a valid match has at least min_match selected peaks, as many indices as selected peaks (one optional index per peak),
@@ -71,3 +71,15 @@ Theorem C05_nan_elevation_never_selected : forall tol2 mw mm zero a b pts m z2 a
   forall k o p, nth_error m k = Some (Some o) -> nth_error pts k = Some p -> exists q, fst p = EVal q /\ mw <= q.
 Proof. exact fastmatch_f_nan_never_selected. Qed.
 Print Assumptions C05_nan_elevation_never_selected.
+
+(* rotating / reflecting / translating all inputs (start lattice and peak positions) by a rational orthogonal map rotates /
+   reflects / translates the result: same validity and reason, same selection and integer indices, fitted lattice mapped *)
+Theorem C05_rigid_motion_covariant : forall tol2 mw mm M zero a b pts, orthogonal M ->
+  fm_rel M (fastmatch tol2 mw mm zero a b pts) (fastmatch tol2 mw mm (aff M zero) (lin M a) (lin M b) (map (tpeak M) pts)).
+Proof. exact fastmatch_orthogonal. Qed.
+Print Assumptions C05_rigid_motion_covariant.
+
+Theorem C05_matching_step_rotation_invariant : forall tol2 M zero a b p, orthogonal M ->
+  match_point tol2 (aff M zero) (lin M a) (lin M b) (aff M p) = match_point tol2 zero a b p.
+Proof. exact match_point_orthogonal. Qed.
+Print Assumptions C05_matching_step_rotation_invariant.
